@@ -20,7 +20,7 @@ From Coq Require Import List NArith Bool Arith.
 From SV Require Import Bytes Lexer Tables ArgCheck ArgSpec Machine Printer GenTables.
 Import ListNotations.
 Local Open Scope nat_scope.
-From SV Require Import ArgCheckFacts GateFacts.
+From SV Require Import ArgCheckFacts GateFacts PositionFacts TotalFacts CompleteFacts.
 
 (* feeding an argument sequence to check_next_arg: complete / incomplete / rejected exactly as the specification says, with the same recorded values *)
 Theorem C01_argcheck_correct :
@@ -71,6 +71,55 @@ Theorem C01_generated_tables :
   Forall (fun a : argument => arg_shape_ok a = true) args -> corr_stmt d AtTop loaded args.
 Proof. exact ArgCheckFacts.gen_tables_argcheck_correct. Qed.
 Print Assumptions C01_generated_tables.
+
+(* completeness for commands without tests and blocks: `name args ;` with legal, complete arguments is accepted (and the node carries exactly the specified maps) *)
+Theorem C01_action_complete :
+  forall (T : tables) (st : pstate) (name : bytes) (d : cmddef) (args : list argument)
+    (am em : list (bytes * aval)),
+  can_start st ->
+  get_command_instance T (p_loaded st) name = inl d ->
+  d_type d = CAction ->
+  twf d = true ->
+  d_complete d = HNone ->
+  d_must_follow d = None ->
+  wf_def d = true ->
+  fixed_arity d = true ->
+  Forall arg_ok args ->
+  legal d (p_loaded st) args = LComplete am em ->
+  exists cl : list bytes,
+    steps T st (mk TIdentifier name :: flat_map arg_toks args ++ [mk TSemicolon [59%N]]) =
+    Some
+      {|
+        p_stack := [];
+        p_cstate := CNone;
+        p_curlist := cl;
+        p_expected := None;
+        p_brackets := p_brackets st;
+        p_loaded := p_loaded st;
+        p_hash := [];
+        p_result := p_result st ++ [Node d am em [] (p_hash st)]
+      |}.
+Proof. exact CompleteFacts.action_complete. Qed.
+Print Assumptions C01_action_complete.
+
+(* ... on texts, for every layout that lexes to these tokens (blanks, line endings) *)
+Theorem C01_action_on_text :
+  forall (T : tables) (text name : bytes) (d : cmddef) (args : list argument)
+    (am em : list (bytes * aval)),
+  twf_tables T = true ->
+  snd (lex text) = None ->
+  map strip_pos (fst (lex text)) =
+  mk TIdentifier name :: flat_map arg_toks args ++ [mk TSemicolon [59%N]] ->
+  get_command_instance T [] name = inl d ->
+  d_type d = CAction ->
+  d_complete d = HNone ->
+  d_must_follow d = None ->
+  wf_def d = true ->
+  fixed_arity d = true ->
+  Forall arg_ok args ->
+  legal d [] args = LComplete am em -> parse T text = Accept [Node d am em [] []].
+Proof. exact CompleteFacts.parse_single_action. Qed.
+Print Assumptions C01_action_on_text.
 
 (* an accepted script ends with an empty command stack, balanced brackets and nothing expected *)
 Theorem C01_accept_final_state :
